@@ -11,8 +11,8 @@ An external that is not listed is treated as pure-fresh and counted in the evide
 # fully qualified functions -------------------------------------------------------------------------------
 FUNCS = {
     # numpy, pure-fresh
-    "numpy.array": dict(ret="fresh"), "numpy.concatenate": dict(ret="fresh"), "numpy.append": dict(ret="fresh"),
-    "numpy.unique": dict(ret="fresh"), "numpy.where": dict(ret="fresh", tag="indexarr"),
+    "numpy.array": dict(ret="fresh", labelflow=True), "numpy.concatenate": dict(ret="fresh"), "numpy.append": dict(ret="fresh"),
+    "numpy.unique": dict(ret="fresh", labelflow=True), "numpy.where": dict(ret="fresh", tag="indexarr"),
     "numpy.dot": dict(ret="fresh"), "numpy.sum": dict(ret="fresh"), "numpy.sqrt": dict(ret="fresh"),
     "numpy.square": dict(ret="fresh"), "numpy.zeros": dict(ret="fresh"), "numpy.identity": dict(ret="fresh"),
     "numpy.empty": dict(ret="fresh"), "numpy.full": dict(ret="fresh"), "numpy.cumsum": dict(ret="fresh"),
@@ -30,7 +30,7 @@ FUNCS = {
     "numpy.linalg.solve": dict(ret="fresh"), "numpy.linalg.pinv": dict(ret="fresh"), "numpy.eye": dict(ret="fresh"),
     "numpy.sign": dict(ret="fresh"), "numpy.flatnonzero": dict(ret="fresh", tag="indexarr"),
     "numpy.nonzero": dict(ret="fresh", tag="indexarr"), "numpy.zeros_like": dict(ret="fresh"),
-    "numpy.full_like": dict(ret="fresh"), "numpy.ones_like": dict(ret="fresh"), "numpy.sort": dict(ret="fresh"),
+    "numpy.full_like": dict(ret="fresh"), "numpy.ones_like": dict(ret="fresh"), "numpy.sort": dict(ret="fresh", labelflow=True),
     "numpy.isin": dict(ret="fresh", tag="mask"), "numpy.in1d": dict(ret="fresh", tag="mask"),
     "numpy.logical_not": dict(ret="fresh", tag="mask"), "numpy.logical_and": dict(ret="fresh", tag="mask"),
     "numpy.greater": dict(ret="fresh", tag="mask"), "numpy.less": dict(ret="fresh", tag="mask"),
@@ -38,7 +38,7 @@ FUNCS = {
     "numpy.einsum": dict(ret="fresh"), "numpy.diag": dict(ret="fresh"), "numpy.trace": dict(ret="fresh"),
     "numpy.nan_to_num": dict(ret="fresh"), "numpy.clip": dict(ret="fresh"), "numpy.count_nonzero": dict(ret="fresh"),
     # numpy, views
-    "numpy.asarray": dict(ret="alias0"), "numpy.squeeze": dict(ret="alias0"), "numpy.ravel": dict(ret="alias0"),
+    "numpy.asarray": dict(ret="alias0", labelflow=True), "numpy.squeeze": dict(ret="alias0"), "numpy.ravel": dict(ret="alias0"),
     "numpy.reshape": dict(ret="alias0"), "numpy.transpose": dict(ret="alias0"),
     "numpy.ascontiguousarray": dict(ret="alias0"), "numpy.asfortranarray": dict(ret="alias0"),
     # numpy, mutating an argument (none used on the pinned tree; listed so that introducing one is seen)
@@ -78,11 +78,11 @@ BUILTINS = {
     "str": dict(ret="fresh"), "bool": dict(ret="fresh"), "isinstance": dict(ret="fresh"),
     "issubclass": dict(ret="fresh"), "callable": dict(ret="fresh"), "hasattr": dict(ret="fresh"),
     "type": dict(ret="fresh"), "print": dict(ret="fresh"), "any": dict(ret="fresh"), "all": dict(ret="fresh"),
-    "list": dict(ret="shallow", cls="list"), "tuple": dict(ret="shallow", cls="tuple"),
-    "set": dict(ret="shallow", cls="set"), "frozenset": dict(ret="shallow", cls="set"),
-    "dict": dict(ret="shallow", cls="dict"), "sorted": dict(ret="shallow", cls="list"),
-    "reversed": dict(ret="shallow", cls="list"), "enumerate": dict(ret="enumerate"), "zip": dict(ret="zip"),
-    "iter": dict(ret="alias0"), "next": dict(ret="elem0"), "round": dict(ret="fresh"), "id": dict(ret="fresh",
+    "list": dict(ret="shallow", cls="list", labelflow=True), "tuple": dict(ret="shallow", cls="tuple", labelflow=True),
+    "set": dict(ret="shallow", cls="set", labelflow=True), "frozenset": dict(ret="shallow", cls="set", labelflow=True),
+    "dict": dict(ret="shallow", cls="dict"), "sorted": dict(ret="shallow", cls="list", labelflow=True),
+    "reversed": dict(ret="shallow", cls="list", labelflow=True), "enumerate": dict(ret="enumerate"), "zip": dict(ret="zip"),
+    "iter": dict(ret="alias0", labelflow=True), "next": dict(ret="elem0"), "round": dict(ret="fresh"), "id": dict(ret="fresh",
                                                                                                  procdep=True),
     "hash": dict(ret="fresh", procdep=True), "repr": dict(ret="fresh"), "divmod": dict(ret="fresh"),
     "pow": dict(ret="fresh"), "map": dict(ret="fresh"), "filter": dict(ret="shallow"),
@@ -98,8 +98,8 @@ BUILTINS = {
 METHODS = {
     # pure, fresh
     "sum": dict(ret="fresh"), "mean": dict(ret="fresh"), "std": dict(ret="fresh"), "min": dict(ret="fresh"),
-    "max": dict(ret="fresh"), "any": dict(ret="fresh"), "all": dict(ret="fresh"), "tolist": dict(ret="shallow",
-                                                                                                 cls="list"),
+    "max": dict(ret="fresh"), "any": dict(ret="fresh"), "all": dict(ret="fresh"),
+    "tolist": dict(ret="shallow", cls="list", labelflow=True),
     "astype": dict(ret="fresh"), "nonzero": dict(ret="fresh", tag="indexarr"), "argmax": dict(ret="fresh"),
     "argmin": dict(ret="fresh"), "index": dict(ret="fresh"), "count": dict(ret="fresh"), "format": dict(ret="fresh"),
     "join": dict(ret="fresh"), "split": dict(ret="fresh"), "startswith": dict(ret="fresh"),
@@ -109,8 +109,8 @@ METHODS = {
     # views / aliases
     "reshape": dict(ret="alias0"), "ravel": dict(ret="alias0"), "squeeze": dict(ret="alias0"),
     "transpose": dict(ret="alias0"), "view": dict(ret="alias0"),
-    "keys": dict(ret="keys0"), "values": dict(ret="alias0"), "items": dict(ret="items0"),
-    "get": dict(ret="elem0"), "copy": dict(ret="shallow"), "fromkeys": dict(ret="fresh", cls="dict"),
+    "keys": dict(ret="keys0", labelflow=True), "values": dict(ret="alias0"), "items": dict(ret="items0"),
+    "get": dict(ret="elem0"), "copy": dict(ret="shallow", labelflow=True), "fromkeys": dict(ret="fresh", cls="dict"),
     "from_iterable": dict(ret="shallow_flat"),
     # mutate the receiver
     "append": dict(ret="fresh", mut=["recv"], store_args=True), "extend": dict(ret="fresh", mut=["recv"],
